@@ -68,7 +68,14 @@ def _collapse_invariants(
     # (*e.g.*, the invariants to be checked on ``__setattr__`` of a class with call-only invariants). Otherwise,
     # the class would share the list with its base, and an invariant added to the class by the invariant decorator
     # would also be added to the base and all of its descendants.
-    if invariants or any(hasattr(base, invariants_dunder) for base in bases):
+    #
+    # The same holds for a list taken over with the namespace of another class (*e.g.*, a class re-created from
+    # the namespace of the original one): the class must not share it with that class.
+    if (
+        invariants
+        or invariants_dunder in namespace
+        or any(hasattr(base, invariants_dunder) for base in bases)
+    ):
         namespace[invariants_dunder] = invariants
 
     # endregion
